@@ -288,6 +288,9 @@ def enum_special(tier):
     yield {"reactions": BIG, "family": "SP"}
     # long names: a product term without blanks that is longer than the line width of the statement wrapper
     yield {"reactions": [[["CH3OCH2CH2OCH2CH2OH", "NH2CH2CH2CH2CH2OH", "HCOOCH2CH2CH2CH3"], ["H2O", "H2O"]], [["H2O", "HCOOCH2CH2CH2CH3"], ["CH3OCH2CH2OCH2CH2OH"]]], "family": "SP"}
+    # repeated reactants / products in every order (the same species not adjacent in the list)
+    yield {"reactions": [[["H", "H2", "H"], ["H2", "H2"]]], "family": "SP"}
+    yield {"reactions": [[["H", "e-", "H"], ["H2", "e-"]], [["H2", "H", "H2"], ["H", "H", "H", "H2"]]], "family": "SP"}
     # placeholder reactions (coefficient 0) that the user supplies a law for through the rate modifier: their terms
     # are part of the right-hand side like any other
     yield {"reactions": [[["H", "H"], ["H2"]], [["H2"], ["H", "H"], {"alpha": 0.0, "idx": 7}]], "rate_modifier": {"7": "2.0 * zeta"}, "family": "SP"}
